@@ -20,7 +20,7 @@ RULE = ("schemas with mutable defaults on typed lists/dicts (scalars, dict items
         "load of the unchanged files; hand-made argparse namespaces (known options, options a dynamic or fixed section "
         "does not declare) go through cmdline_args_override; non-trivial = >= 3 "
         "operations applied with >= 1 in-place mutation or dynamic field; distinct = distinct (schema, history)")
-REQUIRED = ("schemas_with_a_tuple_default_on_a_typed_list", "asdict_with_computed_fields", "schemas_with_encoded_values_in_default_items", "hand_written_documents_with_unknown_names", "inner_containers_changed_in_place", "asdict_results_changed_in_place", "failed_include_loads", "foreign_method_secrets_loaded", "schemas_with_environment_prefix", "resets_then_inplace_mutations", "cmdline_namespaces_applied", "same_document_loads", "cross_assignments", "serialisations_applied", "twin_before_checks", "twin_after_checks", "fingerprint_checks", "shared_item_checks", "ops_applied",
+REQUIRED = ("setdefault_results_changed_in_place", "schemas_with_a_tuple_default_on_a_typed_list", "asdict_with_computed_fields", "schemas_with_encoded_values_in_default_items", "hand_written_documents_with_unknown_names", "inner_containers_changed_in_place", "asdict_results_changed_in_place", "failed_include_loads", "foreign_method_secrets_loaded", "schemas_with_environment_prefix", "resets_then_inplace_mutations", "cmdline_namespaces_applied", "same_document_loads", "cross_assignments", "serialisations_applied", "twin_before_checks", "twin_after_checks", "fingerprint_checks", "shared_item_checks", "ops_applied",
             "inplace_mutations", "dynamic_fields_added")
 ASSUMPTIONS = ["deep mutation inside an *untyped* default (ListField(default=[[1]]), Field(default=[...])) is out of "
                "scope: the property quantifies over mutable defaults on typed fields"]
@@ -349,6 +349,27 @@ def run(case, ctx, res):
             pass
     fp0 = fingerprint(cc, drv.built.schema)
     b0 = Snapshot(b)
+    # the setdefault(...).append(...) idiom on a dict of typed lists / dicts, with a container of the twin as default: what
+    # setdefault hands back belongs to configuration a
+    for key in ("nd0", "dd1"):
+        try:
+            da, db = a[key], b[key]
+            src = next((v for v in db.values() if isinstance(v, (list, dict))), None) if db else None
+            if da is None or src is None:
+                continue
+            got = da.setdefault("zz_setdefault_new", src)
+            if isinstance(got, list):
+                got.append("zz" if key == "nd0" else 1)
+            else:
+                got["zz_k"] = 1
+            res.count("setdefault_results_changed_in_place")
+        except Exception:
+            continue
+        d = b0.diff(Snapshot(b))
+        if d:
+            res.viol("M-twin", "twin-before:setdefault-result", "a.%s.setdefault('zz_setdefault_new', <a container held by b>) was changed in "
+                     "place through what setdefault returned: configuration b changed: %s" % (key, "; ".join(d[:3])))
+            return
     expect_fresh = model.defaults_tree(drv.root, env)
     fresh_flags = {}
     history.flags_for_tree(drv.root, {}, "", fresh_flags)
